@@ -299,14 +299,24 @@ def r2_closure_params(text, log):
         for c in sn.closures(0, len(text)):
             mm = re.match(r'\s*&\s*([a-z_][a-z0-9_]*)\s*$', c['params'])
             if mm:
-                hit = (c, mm.group(1))
+                hit = (c, mm.group(1), None)
+                break
+            mt = re.match(r'\s*&\s*\(\s*((?:[a-z_][a-z0-9_]*\s*,\s*)*[a-z_][a-z0-9_]*)\s*\)\s*$', c['params'])
+            if mt:
+                # `|&(a, _)| BODY` -> `|p__r| { let (a, _k1) = *p__r; BODY }` (tuple of Copy components; `_` gets a fresh name)
+                names = [n.strip() for n in mt.group(1).split(',')]
+                names = [('_k%d' % k if n == '_' else n) for k, n in enumerate(names)]
+                hit = (c, 'p', names)
                 break
         if not hit:
             return text
-        c, nm = hit
+        c, nm, names = hit
         body = text[c['body_start']:c['body_end']]
         inner = body[1:-1].strip() if c['is_block'] else body.strip()
-        new = '|%s__r| { let %s = *%s__r; %s }' % (nm, nm, nm, inner)
+        if names is None:
+            new = '|%s__r| { let %s = *%s__r; %s }' % (nm, nm, nm, inner)
+        else:
+            new = '|p__r| { let (%s) = *p__r; %s }' % (', '.join(names), inner)
         log.append(dict(rule='R2', before=norm_ws(text[c['bar']:c['body_end']]), after=norm_ws(new)))
         text = text[:c['bar']] + new + text[c['body_end']:]
 
